@@ -99,7 +99,7 @@ func drawOpMix(rt *rapid.T, p2psig bool, mix int) Op {
 func drawOpGeneral(rt *rapid.T, p2psig bool) Op {
 	o := Op{}
 	// weights: storage-heavy and governance ops are the interesting ones
-	w := rapid.IntRange(0, 46).Draw(rt, "opk")
+	w := rapid.IntRange(0, 48).Draw(rt, "opk")
 	switch {
 	case w < 4:
 		o.Kind = OpTransferGAS
